@@ -33,6 +33,9 @@ type Store struct {
 	// ShelfFault decides, for WriteShelf/ReadShelf calls (notifier job bookkeeping), whether the call
 	// proceeds ("go"), fails ("fail") or the incarnation dies right there ("crash"). May be nil.
 	ShelfFault func(kind, shelf string) string
+	// ShelfGetFault decides, for a Get of one key inside a ReadShelf call, whether it fails ("fail"): the read of ONE
+	// notifier job fails (lock not obtained in time / storage error) while reads of other keys proceed. May be nil.
+	ShelfGetFault func(shelf string, key []byte) string
 	mu         sync.Mutex
 	dead       bool
 	phase      map[string]int // per actor: 0 = before first read of an Add, >0 = inside hooks
@@ -247,5 +250,21 @@ func (g *Store) ReadShelf(ctx context.Context, shelf string, fn func(stoabs.Read
 			return ErrDead
 		}
 	}
+	if g.ShelfGetFault != nil {
+		return g.KVStore.ReadShelf(ctx, shelf, func(r stoabs.Reader) error { return fn(faultReader{r, shelf, g}) })
+	}
 	return g.KVStore.ReadShelf(ctx, shelf, fn)
+}
+
+type faultReader struct {
+	stoabs.Reader
+	shelf string
+	g     *Store
+}
+
+func (f faultReader) Get(key stoabs.Key) ([]byte, error) {
+	if f.g.ShelfGetFault(f.shelf, key.Bytes()) == "fail" {
+		return nil, ErrInjected
+	}
+	return f.Reader.Get(key)
 }
